@@ -3,8 +3,10 @@ import Driver.Util
 
 /-! engine `sig`: trace acceptor for the projected traces of the `sched` harness with signals (C20).
 
-    init <if|while> <f> <N> <batch 0|1> <clock0> <blind|guarded>     start a new trace; wait construct and form
-                                   of the worker's first state write are probed by behaviour          -> ok
+    init <if|while> <f> <N> <batch 0|1> <clock0> <blind|guarded> <pinned|stopwdog>     start a new trace; wait
+                                   construct, form of the worker's first state write and form of the shutdown
+                                   (watchdog cancelled and joined first, F07-STALEID repair) are probed  -> ok
+    ev D <createG|cancelG|joinG>, ev G <lockT|unlockT|wake>      only with `stopwdog`
     st <tc> <R> <P> <X> <ts|->     harness state before a step: threadcount, runnable threads, parked-
                                    unsignalled threads, threads blocked on something else, t[i].state
                                    digits (0 NEW 1 RCMD 2 READING 3 DONE 4 FAILED 5 CANCELED)  -> ok | reject ..
@@ -42,6 +44,12 @@ def parseSg : String → Option Sg
 
 def parseLabel : List String → Option Label
   | ["D", "createS"] => some (.d .createS)
+  | ["D", "createG"] => some (.d .createG)
+  | ["D", "cancelG"] => some (.d .cancelG)
+  | ["D", "joinG"] => some (.d .joinG)
+  | ["G", "lockT"] => some (.g .lockT)
+  | ["G", "unlockT"] => some (.g .unlockT)
+  | ["G", "wake"] => some (.g .wake)
   | ["D", "lock"] => some (.d .lock)
   | ["D", "wait"] => some (.d .wait)
   | ["D", "wake", "0"] => some (.d (.wake false))
@@ -86,7 +94,7 @@ def parseLabel : List String → Option Label
 def enabledNames (s : St) : List String :=
   (if dEnabled s then ["D"] else []) ++
   (((List.range s.ws.length).filter (wEnabled s)).map fun i => s!"W{i}") ++
-  (if sEnabled s then ["Z"] else [])
+  (if sEnabled s then ["Z"] else []) ++ (if gEnabled s then ["G"] else [])
 
 def showW : WP → String
   | .idle => "idle" | .started => "started" | .rcmdL => "rcmdL" | .skipL => "skipL" | .ready => "ready" | .connecting => "connecting"
@@ -106,7 +114,10 @@ def showSPC : SPC → String
   | .cancelled => "cancelled"
 
 def showOwn : Own → String
-  | .none => "-" | .d => "D" | .w i => s!"W{i}" | .s => "Z"
+  | .none => "-" | .d => "D" | .w i => s!"W{i}" | .s => "Z" | .g => "G"
+
+def showGPC : GPC → String
+  | .off => "off" | .at k => s!"at{k}" | .inside k => s!"inside{k}" | .sleeping => "sleeping" | .ended => "ended"
 
 def tsDigit : TS → Char
   | .new => '0' | .rcmd => '1' | .reading => '2' | .done => '3' | .failed => '4' | .canceled => '5'
@@ -119,7 +130,7 @@ def showNats (l : List Nat) : String := if l.isEmpty then "-" else ",".intercala
 def showSt (s : St) : String :=
   s!"dpc={showDPC s.dpc} i={s.i} tc={s.tc} own={showOwn s.own} thd={showOwn s.thd} sig={s.sig} " ++
   s!"ws={",".intercalate (s.ws.map showW)} ts={showTs s} spc={showSPC s.spc} pend={s.pend.length} now={s.now} " ++
-  s!"last={s.last}"
+  s!"last={s.last} gpc={showGPC s.gpc} gcan={s.gcan} gjoin={s.gjoin}"
 
 /-- a worker whose next protocol operation is a lock request may be runnable in the implementation on
     operations the model does not see (time(), poll/read/close/fputs) although the lock is taken -/
@@ -133,7 +144,7 @@ def mayRunUnseen (s : St) (n : String) : Bool :=
 
 def checkSt (s : St) (tc r p x ts : String) : Option String :=
   let en := enabledNames s
-  let known := fun (n : String) => n = "D" || n = "Z" || n.startsWith "W"
+  let known := fun (n : String) => n = "D" || n = "Z" || n.startsWith "W" || (s.sw && n = "G")
   let rs := (names r).filter known
   let xs := names x
   let ps := names p
@@ -174,11 +185,11 @@ def checkObs (s : St) : List String → Option String
 
 def stepLine (a : Acc) (line : String) : Acc × String :=
   match Driver.words line with
-  | ["init", v, f, n, b, t0, g] =>
+  | ["init", v, f, n, b, t0, g, sw] =>
     match f.toNat?, n.toNat?, t0.toNat? with
     | some f, some n, some t0 =>
       let v := if v = "if" then Variant.ifWait else Variant.whileWait
-      ({ st := some (init v (g = "guarded") f n (b = "1") t0), dead := false }, "ok")
+      ({ st := some (init v (g = "guarded") (sw = "stopwdog") f n (b = "1") t0), dead := false }, "ok")
     | _, _, _ => (a, "bad-line")
   | "st" :: rest =>
     if a.dead then (a, "skip") else
